@@ -24,6 +24,10 @@ func (ex *Exec) doCall(st *State, fr *Frame, c *ssa.CallCommon, dst ssa.Value, p
 	ex.curCallRecv = nil
 	if c.IsInvoke() {
 		ex.curCallRecv = fnv
+	} else if _, isScalar := fnv.(Scalar); isScalar && c.StaticCallee() == nil {
+		// a call through a function value of a named function type (context.CancelFunc): hooks name the
+		// type, and 'recv' is the function value that is called
+		ex.curCallRecv = fnv
 	}
 	gsAfter := ex.ghostSets(st, fr, c, "before")
 	pushed := ex.callValue(st, fr, c, fnv, args, dst, pos, false, work)
@@ -58,6 +62,8 @@ func (ex *Exec) ghostSets(st *State, fr *Frame, c *ssa.CallCommon, when string) 
 		callee = typeName(c.Value.Type()) + "." + c.Method.Name()
 	} else if f := c.StaticCallee(); f != nil {
 		callee = specName(f)
+	} else if _, named := c.Value.Type().(*types.Named); named {
+		callee = typeName(c.Value.Type())
 	}
 	if callee == "" {
 		return nil
@@ -194,8 +200,14 @@ func (ex *Exec) callValue(st *State, fr *Frame, c *ssa.CallCommon, fnv Value, ar
 		setRes(ex.applyContract(st, fr, sp, nil, sig, args, pos, ""))
 		return false
 	}
-	// cancelling a context touches nothing the contracts talk about
+	// cancelling a context touches nothing of the program's heap; that it has been cancelled is recorded
+	// (class ctxstate.cancelled, indexed by the cancel function's identity; cancelled(f) in contracts)
 	if typeName(c.Value.Type()) == "context.CancelFunc" {
+		if sv, ok := fnv.(Scalar); ok && ex.pure == nil {
+			ex.checkFrameCancel(st, sv.T, pos)
+			h := st.heapGet(ctxCancelledClass, SArr(SInt, SBool))
+			st.heapSet(ctxCancelledClass, Store(h, sv.T, True))
+		}
 		setRes(TupleV{})
 		return false
 	}
@@ -281,6 +293,9 @@ func isRepoClass(class string) bool {
 // chanClosedClass: has close(ch) been executed on channel ch. Counted among the repository's classes:
 // library code is assumed not to close the repository's channels.
 const chanClosedClass = "chanstate.closed"
+
+// ctxCancelledClass: has the cancel function (a context.CancelFunc value) been called.
+const ctxCancelledClass = "chanstate.cancelled"
 
 func (ex *Exec) preserved(class string) bool { return preservedClass(class) }
 
